@@ -5,6 +5,7 @@ the served methods when some other method serves this path at this version,
 404 when none does.
 -/
 import Driver.RouterCommon
+import DropshotModel.Path
 
 open Dropshot Dropshot.Proto Dropshot.RouterCommon
 
@@ -26,7 +27,15 @@ def handle (line : String) : String :=
       | some path, some v =>
         let (k, t, eps, err) := registerAll Node.empty raws 0 []
         if err.isSome || k ≠ raws.length then bad id "table-not-accepted-by-model" else
-        let segs := splitPath path
+        -- `lookup_route` starts with `input_path_to_segments` (C03's model): a path it
+        -- refuses is answered 400 before any route is looked at; otherwise the trie sees the
+        -- percent-decoded segments
+        match Path.inputSegments (path.toUTF8.toList.map (·.toNat)) with
+        | .error _ => out id (i == "err:400") (b2s (i == "err:400")) "c4-400" "-" "err:400"
+        | .ok bsegs =>
+        match bsegs.mapM (fun b => utf8String (b.map (·.toUInt8))) with
+        | none => bad id "segment-not-utf8"
+        | some segs =>
         let res := Node.lookup t m segs v
         let model := encLookup res
         let cands := Cands eps m segs v
